@@ -65,3 +65,54 @@ fn('emmet.scanner:Scanner.error', props=P16,
             'result.pos == (self.pos if pos is None else pos)',
             'same_str(result.string, self.string)'],
    modifies=[])
+
+# ---------------------------------------------------------------------------------------
+# scanner_utils.py
+# ---------------------------------------------------------------------------------------
+from pyvc.contracts import rec
+
+rec('ScanOpt', {'escape': 'char', 'throws': 'bool'})
+rec('ScanOptIn', {'escape': 'char', 'throws': 'bool'}, optional=True)
+
+for _p in ('is_number', 'is_alpha', 'is_alpha_numeric', 'is_alpha_numeric_word', 'is_alpha_word',
+           'is_white_space', 'is_space', 'is_quote'):
+    fn('emmet.scanner_utils:' + _p, inline=True, pure=True, props=P16 + ['C11', 'C19'])
+
+fn('emmet.scanner_utils:create_options', props=P16,
+   params={'opt': 'rec:ScanOptIn'}, returns='rec:ScanOpt',
+   requires=[],
+   ensures=['fresh(result)',
+            "result['throws'] == (opt['throws'] if 'throws' in opt else False)",
+            "result['escape'] == (opt['escape'] if 'escape' in opt else '\\\\')"],
+   modifies=[], locals={'options': 'rec:ScanOpt'})
+
+# "does not throw" variant: every caller in the matchers passes options without `throws`
+NOTHROW = "('throws' not in options) or options['throws'] == False"
+
+fn('emmet.scanner_utils:eat_quoted', props=P16,
+   params={'scanner': 'Scanner', 'options': 'rec:ScanOptIn'}, returns='bool',
+   requires=['wf(scanner)', NOTHROW],
+   ensures=['implies(not result, scanner.pos == old(scanner.pos) and scanner.start == old(scanner.start))',
+            'implies(result, scanner.pos >= old(scanner.pos) + 2 and scanner.pos <= scanner.end '
+            'and scanner.start == old(scanner.pos))',
+            'implies(result, is_quote(scanner.string[old(scanner.pos)]) and '
+            'scanner.string[scanner.pos - 1] == scanner.string[old(scanner.pos)])'],
+   modifies=['scanner.pos', 'scanner.start'], allocates=True,
+   loops={0: {'anchor': 'while not scanner.eof()',
+              'invariant': ['start < scanner.pos', 'scanner.pos <= scanner.end + 1', 'start == old(scanner.pos)',
+                            'start < scanner.end', 'is_quote(quote)', 'quote == scanner.string[start]',
+                            'scanner.start == old(scanner.start)', "options['throws'] == False"],
+              'decreases': 'scanner.end + 1 - scanner.pos'}})
+
+fn('emmet.scanner_utils:eat_pair', props=P16,
+   params={'scanner': 'Scanner', 'open_ch': 'char', 'close_ch': 'char', 'options': 'rec:ScanOptIn'}, returns='bool',
+   requires=['wf(scanner)', NOTHROW],
+   ensures=['implies(not result, scanner.pos == old(scanner.pos))',
+            'implies(result, scanner.pos >= old(scanner.pos) + 2 and scanner.pos <= scanner.end '
+            'and scanner.start == old(scanner.pos))'],
+   modifies=['scanner.pos', 'scanner.start'], allocates=True,
+   loops={0: {'anchor': 'while not scanner.eof()',
+              'invariant': ['start < scanner.pos', 'scanner.pos <= scanner.end + 1', 'start == old(scanner.pos)',
+                            'start < scanner.end', 'stack >= 1',
+                            "options['throws'] == False"],
+              'decreases': 'scanner.end + 1 - scanner.pos'}})
